@@ -94,7 +94,7 @@ func GenLockScript(r *Rng, hist map[string]int) []string {
 			}
 		case 6:
 			// a configuration that checkOptions rejects: nothing is touched, with the directory open or not
-			add("openopts %s", r.PickS("dirpath", "fsize0", "fsizeneg", "ratio", "rationeg", "bps", "thresh0"))
+			add("openopts %s", r.PickS("dirpath", "fsize0", "fsizeneg", "ratio", "rationeg", "bps", "thresh0", "index0", "index0", "index9"))
 			hist["lock_open_with_rejected_configuration"]++
 		case 5:
 			if busyDone {
